@@ -1057,6 +1057,15 @@ fn gen_c11(rng: &mut Rng, ctx: &mut Ctx, rep: &mut Report, emit: Emit) {
         if ops.is_empty() { emit(ctx, rep, format!("seq {}", show_bundle(&b))); } else { emit(ctx, rep, format!("seq {} {}", show_bundle(&b), ops.join(" ; "))); }
     }
     rep.exhaustive_parts.push(format!("all {} sequences of operation kinds of length <= {}", seqs.len(), maxlen));
+    // the same extension block type added twice and three times, for every type around the assigned codes and the
+    // aliases of the at-most-once types: only 6, 7 and 10 are at-most-once, every other type may repeat
+    for t in (2u64..=13).chain([14, 63, 64, 70, 71, 74, 191, 192, 193, 255, 256, 262, 263, 266, 65_542, (1 << 32) + 6, (1 << 32) + 7, (1 << 32) + 10, u64::MAX]) {
+        let b = start(rng);
+        let d = match t { 6 => "p:N:1:0".to_string(), 7 => "a:5".to_string(), 10 => "h:9.1".to_string(), _ => format!("u:{:02x}", t as u8) };
+        let add = |num: u64| format!("add {} {} 0 n {}", t, num, d);
+        emit(ctx, rep, format!("seq {} {} ; {}", show_bundle(&b), add(0), add(0)));
+        emit(ctx, rep, format!("seq {} {} ; tocbor ; {} ; {}", show_bundle(&b), add(40), add(41), add(0)));
+    }
     // the public builders as starting point: unsorted, duplicate, payload-less block lists
     for _ in 0..ctx.n(600, 60_000) {
         let mut b = gen_bundle(rng, &Opts { wf: true, max_blocks: 5 });
